@@ -508,3 +508,87 @@ LIB['numpy.nanmin'] = _nan_reduction('min')
 LIB_DOC['numpy.nanmin'] = 'np.nanmin(a): the smallest non-NaN element (attained); NaN if all elements are NaN'
 LIB['numpy.nanmean'] = _nan_reduction('mean')
 LIB_DOC['numpy.nanmean'] = 'np.nanmean(a): a value between nanmin(a) and nanmax(a); NaN if all elements are NaN'
+
+
+# ---------------------------------------------------------------------------------------------
+# slicing, percentile, searchsorted (C04 / C06 / C08)
+# ---------------------------------------------------------------------------------------------
+
+def _sarr_slice(self, ctx, idx):
+    """a[start:] / a[:stop] / a[start:stop] with Python's clamping semantics, unit step"""
+    if idx.step is not None:
+        raise Unsupported('slice with a step')
+    n = self.n
+
+    def norm(v, default):
+        if v is None:
+            return default
+        t = to_int_term(v)
+        t = z3.If(t < 0, t + n, t)
+        return z3.If(t < 0, 0, z3.If(t > n, n, t))
+    lo, hi = norm(idx.start, z3.IntVal(0)), norm(idx.stop, n)
+    ln_ = z3.If(hi > lo, hi - lo, 0)
+    at = self.at
+    out = SArr(z3.simplify(ln_), (lambda i: at(lo + i)), self.dtype)
+    out.slice_of = (self, z3.simplify(lo), z3.simplify(hi))
+    return out
+
+
+_old_getitem = SArr.sym_getitem
+
+
+def _sarr_getitem(self, ctx, idx):
+    if isinstance(idx, slice):
+        return _sarr_slice(self, ctx, idx)
+    return _old_getitem(self, ctx, idx)
+
+
+SArr.sym_getitem = _sarr_getitem
+LIB_DOC['numpy.ndarray[a:b]'] = 'a[start:stop]: Python slice semantics (negative bounds count from the end, bounds are clamped); -0 is 0'
+
+
+@model('numpy.percentile', 'np.percentile(a, q) of a non-empty NaN-free 1-D array, 0 <= q <= 100: a value between min(a) and max(a) '
+                           '(min for q = 0, max for q = 100), invariant under permutation of a; IndexError on an empty array')
+def _percentile(interp, args, kwargs):
+    from .engine import PyRaise
+    a, q = args
+    ctx = interp.ctx
+    if kwargs or not isinstance(a, SArr) or not is_numlike(q):
+        raise Unsupported('np.percentile call shape')
+    if ctx.branch(a.n == 0):
+        raise PyRaise('IndexError', 'np.percentile of an empty array')
+    _, qv = to_real_parts(q)
+    r = fresh_real('pct')
+    at = a.at
+    ctx.assume(smt.Forall(0, a.n, lambda j: z3.Not(to_real_parts(at(j))[0]), name='pn')) if False else None
+    lo, hi = fresh_int('plo'), fresh_int('phi')
+    ctx.assume(z3.And(lo >= 0, lo < a.n, hi >= 0, hi < a.n))
+    ctx.assume(z3.And(to_real_parts(at(lo))[1] <= r, r <= to_real_parts(at(hi))[1]))
+    ctx.schemas.append(smt.Forall(0, a.n, lambda j: z3.And(to_real_parts(at(lo))[1] <= to_real_parts(at(j))[1],
+                                                          to_real_parts(at(j))[1] <= to_real_parts(at(hi))[1]), name='pm'))
+    ctx.assume(z3.Implies(qv == 0, r == to_real_parts(at(lo))[1]))
+    ctx.assume(z3.Implies(qv == 100, r == to_real_parts(at(hi))[1]))
+    ctx.hint(lo, hi)
+    out = SFloat(r, False, 'npfloat')
+    ctx.ghost.setdefault('percentile_calls', []).append((a, q, out, lo, hi))
+    return out
+
+
+@model('numpy.searchsorted', 'np.searchsorted(sorted list a, v): the left insertion point k: a[i] < v for i < k, a[i] >= v for i >= k, 0 <= k <= len(a)')
+def _searchsorted(interp, args, kwargs):
+    a, v = args
+    ctx = interp.ctx
+    if kwargs or not isinstance(a, SList) or not is_numlike(v):
+        raise Unsupported('np.searchsorted call shape')
+    _, vv = to_real_parts(v)
+    k = fresh_int('ss')
+    ctx.assume(z3.And(k >= 0, k <= a.len))
+
+    def val(j):
+        return to_real_parts(a.elem(j))[1]
+    # precondition of the contract: a is sorted ascending (ghost obligation at the call site)
+    ctx.oblige('pre@np.searchsorted.sorted', smt.Forall(0, a.len, lambda i, j: val(i) <= val(j), arity=2, name='so'))
+    ctx.schemas.append(smt.Forall(0, a.len, lambda j: z3.And(z3.Implies(j < k, val(j) < vv), z3.Implies(j >= k, val(j) >= vv)), name='ss'))
+    ctx.hint(k)
+    ctx.ghost.setdefault('searchsorted_calls', []).append((a, v, k))
+    return SInt(k, 'npint')
